@@ -53,7 +53,7 @@ def drop_prefixes(tests):
     return out
 
 
-PROP_INVS = {"C10": ["Inv_C10_dial", "Inv_C10_shutdown"], "C11": ["Inv_C11_registry", "Inv_C11_notify"], "C15": ["Inv_C11_registry"],
+PROP_INVS = {"C01": ["Inv_C01_trust"], "C10": ["Inv_C10_dial", "Inv_C10_shutdown"], "C11": ["Inv_C11_registry", "Inv_C11_notify"], "C15": ["Inv_C11_registry"],
              "C18": ["Inv_C11_registry"]}
 
 
